@@ -9,6 +9,7 @@ func (v *VM) exec() {
 	baseN := v.frame.BaseN
 	l := len(codes)
 	for v.frame.N = 0; v.frame.N < l; v.frame.N++ {
+		verifStep(v)
 		switch codes[v.frame.N].Code {
 		case codePush, codeGlobalRef:
 			v.stack = append(v.stack, newUntypedInt(int(codes[v.frame.N].A)))
